@@ -115,6 +115,14 @@ def _tile(a, reps):
     return rec(a, 0)
 
 
+def _stack(parts):
+    shapes = {_shape(x) for x in parts}
+    if len(shapes) > 1:
+        from .alg import FragmentFault
+        raise FragmentFault(f"stack of tensors with different shapes {sorted(shapes)} (the array library refuses it)")
+    return [_copy(x) for x in parts]
+
+
 def _copy(x):
     return [_copy(y) for y in x] if isinstance(x, (list, tuple)) else x
 
@@ -415,7 +423,7 @@ def externals(interp_truth=None):
         "ones": lambda a, k: _full(a[0], Poly.const(1)),
         "tile": lambda a, k: _tile(a[0], [_int(r) for r in a[1]] if isinstance(a[1], (list, tuple)) else [_int(a[1])]),
         "shape": lambda a, k: tuple(Poly.const(d) for d in _shape(a[0])),
-        "stack": lambda a, k: [_copy(x) for x in a[0]],
+        "stack": lambda a, k: _stack(a[0]),
         "einsum": _einsum,
         "where": lambda a, k: _where(a[0], a[1], a[2]),
         "gather": lambda a, k: _gather(a[0], a[1]),
